@@ -5,7 +5,7 @@
    premise.  That premise, and the IAST equations themselves, are checked on every result the implementation returns.
    Property theorems only, each closed by `exact` + Print Assumptions. *)
 From Coq Require Import Reals Lra List Bool QArith Permutation.
-From PG Require Import Lib.Num Lib.Py Iast.IastSpec Iast.IastGlue Iast.IastTheorems Iast.IastExamples.
+From PG Require Import Lib.Num Lib.Py Iast.IastSpec Iast.IastGlue Iast.IastTheorems Iast.IastInverse Iast.IastExamples.
 Import ListNotations.
 Open Scope R_scope.
 
@@ -66,6 +66,27 @@ Theorem iast_unique : forall (cps : list cp) xs xs' nt nt',
 Proof. exact iast_unique_pos. Qed.
 Print Assumptions iast_unique.
 
+(* forward and reverse IAST invert each other: what reverse_iast returns for requested adsorbed fractions xs at total pressure P (gas
+   fractions yf, loadings ns), fed back as partial pressures P*yf into iast_point, gives the same loadings - hence the requested fractions.
+   Consequence of iast_unique and the two post-condition theorems; for strictly increasing spreading pressures, positive pure-component
+   loadings, positive fractions; any start vectors; both root finders are premises (partial for that reason) *)
+Theorem reverse_forward_inverse_partial :
+  forall root root' : (list R -> list R) -> list R -> bool * list R,
+  (forall f x0, fst (root f x0) = true -> Forall (fun d => d = 0) (f (snd (root f x0)))) ->
+  (forall f x0, length (snd (root f x0)) = length x0) ->
+  (forall f x0, fst (root' f x0) = true -> Forall (fun d => d = 0) (f (snd (root' f x0)))) ->
+  (forall f x0, length (snd (root' f x0)) = length x0) ->
+  forall (cs : list (icomp RNum)) (xs : list R) (P : R) (g g' : option (list R)) (yf ns ns' : list R),
+    cs <> [] -> (forall gu, g = Some gu -> length gu = length cs) -> (forall gu, g' = Some gu -> length gu = length cs) ->
+    Forall (fun c => increasing_pos (i_sp RNum c)) cs -> Forall (fun c => forall p, 0 < p -> 0 < i_ld RNum c p) cs ->
+    0 < P -> Forall (fun x => 0 < x <= 1) xs ->
+    reverse_iast RNum root cs xs P g = Ok (yf, ns) -> Forall (fun y => 0 < y) yf ->
+    iast_point RNum root' cs (map (fun y => P * y) yf) g' = Ok ns' -> Forall (fun n => n <> 0) ns' ->
+    ns' = ns
+    /\ exists nt, is_iast (entries cs (map (fun y => P * y) yf) xs) nt /\ ns = loadings (entries cs (map (fun y => P * y) yf) xs) nt.
+Proof. exact reverse_then_forward. Qed.
+Print Assumptions reverse_forward_inverse_partial.
+
 (* closed forms *)
 Theorem henry_closed_form : forall (kps : list kp) xs nt,
   length xs = length kps -> Forall (fun x => 0 < x) xs -> Forall (fun k => 0 < fst k /\ 0 < snd k) kps ->
@@ -104,4 +125,7 @@ Proof. exact henry_example. Qed.
 (* the model executes: with a root finder that proposes x = 1/2 and reports success iff the residual vanishes there,
    the model of iast_point returns the closed form n = (2, 2) for that mixture *)
 Example model_runs_on_henry_mixture : henry_run = true.
+Proof. vm_compute. reflexivity. Qed.
+(* ... and reverse_iast followed by iast_point on it returns the same loadings (hypotheses of reverse_forward_inverse_partial satisfiable) *)
+Example model_runs_reverse_then_forward : reverse_forward_run = true.
 Proof. vm_compute. reflexivity. Qed.
